@@ -16,8 +16,8 @@ func pConst(r *big.Rat) poly {
 	}
 	return poly{"": new(big.Rat).Set(r)}
 }
-func pInt(n int64) poly    { return pConst(big.NewRat(n, 1)) }
-func pSym(s string) poly   { return poly{s: big.NewRat(1, 1)} }
+func pInt(n int64) poly     { return pConst(big.NewRat(n, 1)) }
+func pSym(s string) poly    { return poly{s: big.NewRat(1, 1)} }
 func (p poly) isZero() bool { return len(p) == 0 }
 
 func (p poly) add(q poly, sign int64) poly {
